@@ -4,6 +4,8 @@
     that is not in the bin table.  [to_wrow ob r] carries the chromosome codes and the anchors after the
     one-based shift.  [InChrom blocks c a]: c is a listed chromosome and 0 <= a < its length. *)
 From Cooler Require Import Model.Ingest Proofs.BinsProofs Proofs.ExtentProofs Proofs.PixelsProofs Proofs.IngestProofs.
+From Cooler Require Import Proofs.FetchProofs.
+From Cooler Require Model.Index Proofs.IndexProofs.
 From Coq Require Import Permutation.
 
 (** 1. an anchor inside its chromosome is assigned a bin of that chromosome that contains it
@@ -187,6 +189,44 @@ Theorem C05_cload_pairs_nothing_cut : forall n recs,
 Proof. exact aggregate_records_inrange. Qed.
 Print Assumptions C05_cload_pairs_nothing_cut.
 
+(** 8. integration with C02: what `cooler cload pairs` writes is a schema-valid collection storing the multiplicities.
+    [ValidInput blocks ob recs] := every record of the input on listed chromosomes has BOTH shifted positions in
+    [0, L) — this is exactly the hypothesis that excludes the known finding D2 (position = L is accepted by the
+    code) together with all rejected inputs; records on unlisted chromosomes are unconstrained.
+    Under it (valid bin table; reflect/drop for symmetric-upper storage) the command succeeds, the pixel table it
+    hands to create() is strictly sorted, inside [0,nbins)^2 and upper triangular, so C02_create_valid applies:
+    the written collection is ValidCSR, holds exactly the canonical aggregate, and every stored count is the
+    number of input records binned to that pixel; the counts add up to the number of retained records. *)
+Theorem C05_cload_pairs_valid_collection : forall blocks zero_based ta chunks symm,
+  ValidBlocks blocks -> ta <> TrilRaise -> (symm = true -> ta = TrilReflect \/ ta = TrilDrop) ->
+  ValidInput blocks (negb zero_based) (concat chunks) ->
+  let out := flat_map kept (map (sanitize1 blocks (negb zero_based) true ta) (concat chunks)) in
+  let px := aggregate_records out in
+  cload_pairs blocks zero_based ta chunks = Some px /\
+  SSorted px /\
+  (forall p, In p px -> 0 <= row p < zlen (table blocks) /\ 0 <= col p < zlen (table blocks)) /\
+  (symm = true -> forall p, In p px -> row p <= col p) /\
+  (forall k, look px k = zlen (filter (fun o => keqb (okey o) k) out)) /\
+  sumZ (map snd px) = zlen out /\
+  exists c, Index.create_model (zlen blocks) (map bchrom (table blocks)) px symm = Some c /\
+            IndexProofs.ValidCSR c /\ Index.pixels_of c = px /\
+            Index.nbins c = zlen (table blocks) /\ Index.symmetric_upper c = symm.
+Proof. exact cload_pairs_valid_collection. Qed.
+Print Assumptions C05_cload_pairs_valid_collection.
+
+(** without ValidInput the conclusion fails: the D2 input of C05_reject_refuted yields a pixel with bin2 = nbins,
+    and the collection written for it is NOT schema-valid *)
+Theorem C05_d2_breaks_schema :
+  let blocks := [[(0,0,10);(0,10,20)]] in
+  cload_pairs blocks true TrilReflect [[((0, 20, 7), (0, 3, 8))]] = Some [((0, 2), 1)] /\
+  zlen (table blocks) = 2 /\
+  match Index.create_model 1 (map bchrom (table blocks)) [((0, 2), 1)] true with
+  | Some c => Index.valid_csr_b c = false
+  | None => False
+  end.
+Proof. vm_compute. repeat split; reflexivity. Qed.
+Print Assumptions C05_d2_breaks_schema.
+
 (** non-vacuity: a variable-width table with a longer last bin, records on bin edges, a lower-triangle
     record, an unknown chromosome, one-based input *)
 Example ex_C05_variable :
@@ -211,3 +251,15 @@ Example ex_C05_rejects :
   sanitize_records blocks false true TrilReflect [((0,3,0),(1,2,0)); ((1,-1,0),(0,0,0))] = None /\
   sanitize_records blocks false true TrilRaise [((1,3,0),(0,2,0))] = None.
 Proof. vm_compute. repeat split; reflexivity. Qed.
+Example ex_C05_valid_input :
+  let blocks := [[(0,0,10);(0,10,20)]; [(1,0,10);(1,10,22);(1,22,25)]] in
+  let recs : list record := [((1,24,0),(0,19,0)); ((-1,99,0),(0,0,0)); ((0,0,0),(0,19,0)); ((0,19,0),(1,24,0))] in
+  ValidBlocks blocks /\ ValidInput blocks false recs /\
+  cload_pairs blocks true TrilReflect [firstn 1 recs; skipn 1 recs] = Some [((0,1),1); ((1,4),2)].
+Proof.
+  split; [apply valid_blocks_b_sound; reflexivity|]. split; [|reflexivity].
+  intros r Hr Hk. cbn in Hr.
+  destruct Hr as [<-|[<-|[<-|[<-|[]]]]]; try discriminate Hk; split;
+    first [ exists 0%nat, [(0,0,10);(0,10,20)]; repeat split; vm_compute; congruence
+          | exists 1%nat, [(1,0,10);(1,10,22);(1,22,25)]; repeat split; vm_compute; congruence ].
+Qed.
